@@ -306,6 +306,12 @@ class AlignmentCollector:
                 # here, so the records such an alignment gets in the sub-regions it overlaps agree
                 gene_region = new_region
                 for bam_index, alignment in alignment_storage.get_alignments(new_region):
+                    # records that are never assigned (see process_genic / process_intergenic) need no genes: a supplementary
+                    # or filtered alignment with a huge gap would make every sub-region below it load every gene below it
+                    if alignment.reference_id == -1 or alignment.is_supplementary or \
+                            (self.params.no_secondary and alignment.is_secondary) or \
+                            (self.params.min_mapq and alignment.mapping_quality < self.params.min_mapq):
+                        continue
                     gene_region = (min(gene_region[0], alignment.reference_start),
                                    max(gene_region[1], alignment.reference_end - 1))
                 alignments = alignment_storage.get_alignments(new_region)
